@@ -21,7 +21,11 @@ D  decorations: every chain of S with no required flag, times every (site, decor
    (root block) a ``block.super`` / an ``if true`` / ``unless false`` / ``case 1 when 1`` around it (the
    block being the only node of that body) / an empty body / a whitespace-only body / each of the four
    control-flow wrappers combined with each of the two blank bodies (the placeholder shape: what the
-   template itself writes for the block says nothing about what its most-derived definition renders);
+   template itself writes for the block says nothing about what its most-derived definition renders) /
+   readers: every block body of the chain prints ``{{ i }}{{ forloop.index }}{{ w }}`` and the site block sits
+   inside ``for`` / ``with`` / ``for`` + ``with``, or its body (super and nested blocks included) sits inside a
+   ``for`` / ``with`` -- the rendered definition (own, overriding, through super, nested) must read what the
+   constructs around the place of substitution bind;
    or one template gets a stray ``{{ x }}`` / stray ``for`` (non-root),
    a top-level ``{{ x }}`` (root).
 E  error shapes on the unrequired, super-free chains of S: a duplicate of every block (as next sibling,
@@ -168,16 +172,36 @@ BLOCK_DECOS = (
      "root_super", "wrap_if", "wrap_unless", "wrap_case", "body_empty", "body_ws")
     # the placeholder shape: a block with an empty / whitespace-only body alone inside a control-flow tag
     + tuple(f"wrap_{w}+body_{b}" for w in WRAPS for b in BLANK_BODIES)
+    # readers: EVERY block body of the chain prints {{ i }}{{ forloop.index }}{{ w }}; the site block sits in a
+    # for / with / for+with, or its body (super and nested blocks included) sits in a for / with
+    + ("read_for", "read_with", "read_for_with", "read_for_inside", "read_with_inside")
 )
+READERS = [["loopvar"], ["forindex"], ["withvar"]]
 TEMPLATE_DECOS = ("stray_var", "stray_for", "root_var")
 
 
-def build_block(name: str, level: int, req: int, sup: int, children: list[Any], deco: Optional[str]) -> Any:
+def build_block(name: str, level: int, req: int, sup: int, children: list[Any], deco: Optional[str],
+                readers: bool = False) -> Any:
     open_ = ["text", f"[{name}{level}"]
     close = ["text", "]"]
     s = ["super"]
     endname = None
     wrap = None
+    if readers:
+        reads = [list(r) for r in READERS]
+        body = [open_] + reads + ([s] if sup else []) + children + [close]
+        if deco == "read_for_inside":
+            body = [open_, ["for", reads + ([s] if sup else []) + children], close]
+        elif deco == "read_with_inside":
+            body = [open_, ["with", reads + ([s] if sup else []) + children], close]
+        node = ["block", name, bool(req), body, None]
+        if deco == "read_for":
+            node = ["for", [node]]
+        elif deco == "read_with":
+            node = ["with", [node]]
+        elif deco == "read_for_with":
+            node = ["for", [["with", [node]]]]
+        return node
     if deco and deco.startswith("wrap_"):
         wrap, _, rest = deco[5:].partition("+")
         deco = rest or None
@@ -220,7 +244,7 @@ def deco_applicable(deco: str, level: int, sup: int) -> bool:
     return True
 
 
-def build_template(skel: Any, level: int, deco: Optional[tuple[str, int]]) -> Any:
+def build_template(skel: Any, level: int, deco: Optional[tuple[str, int]], readers: bool = False) -> Any:
     """deco = (kind, block index in preorder) or (template kind, -1) or None."""
     forest, names, styles = skel
     counter = [0]
@@ -231,7 +255,7 @@ def build_template(skel: Any, level: int, deco: Optional[tuple[str, int]]) -> An
         kids = [tree(c) for c in t]
         d = deco[0] if deco is not None and deco[1] == i else None
         req, sup = styles[i]
-        return build_block(POOL[names[i]], level, req, sup, kids, d)
+        return build_block(POOL[names[i]], level, req, sup, kids, d, readers)
 
     tops = [tree(t) for t in forest]
     mark = "r" if level == 0 else f"~{level}"
@@ -252,7 +276,7 @@ def build_program(skels: list[Any], deco: Optional[tuple[str, int, int]] = None)
     T = {}
     for level, sk in enumerate(skels):
         d = (deco[0], deco[2]) if deco is not None and deco[1] == level else None
-        T[f"t{level}"] = build_template(sk, level, d)
+        T[f"t{level}"] = build_template(sk, level, d, deco is not None and deco[0].startswith("read_"))
     return {"templates": T, "leaf": f"t{len(skels) - 1}"}
 
 
@@ -463,7 +487,8 @@ def judge(prog: Any, family: str, shape: str) -> tuple[list[dict[str, Any]], str
         label = "VIOL:" + viols[0]["signature"]["clause"]
     elif kind == "ok":
         label = (f"ok:L{L}:sup{stats['max_super_depth']}:nest{min(stats['cross_level_nested'], 2)}"
-                 f":ovr{min(stats['overridden_resolved'], 3)}")
+                 f":ovr{min(stats['overridden_resolved'], 3)}"
+                 + (":scoped-read-across-block" if stats.get("bound_reads_across_block") else ""))
     elif kind == "error":
         label = f"raises:{exp['cls']}:{exp['why']}:L{L}"
     else:
@@ -516,7 +541,7 @@ class C18(Check):
         "block names are interchangeable identifiers (canonical renaming a,b,c)",
         "loops iterate the literal range (1..2); render data is {x: 'X'}; no whitespace control; default (strict) mode, default Undefined",
         "the whitespace emitted by a rendered definition whose body is only whitespace (statement: the definition; engine: blank suppression) is unspecified: such definitions are generated as placeholders and judged only when overridden",
-        "block.super in a definition with nothing above it, two extends tags, unreached unsatisfied required blocks, loop variables crossing a block boundary and self-re-entering resolutions are unspecified by statement/docs and excluded",
+        "block.super in a definition with nothing above it, two extends tags, unreached unsatisfied required blocks, names bound around a definition in its own template but not where it is rendered, names bound inside an overriding body and read through block.super, and self-re-entering resolutions are unspecified by statement/docs and excluded",
         "'rejected' (duplicate names, mismatched endblock) is read as: a LiquidError is raised instead of output",
     ]
 
@@ -547,7 +572,7 @@ class C18(Check):
         for (L, K, R) in t["S"]:
             split("S", L, K, R, False, 1)
         for (L, K) in t["D"]:
-            split("D", L, K, 0, False, 14 * K * L)
+            split("D", L, K, 0, False, 17 * K * L)
         for (L, K) in t["E"]:
             split("E", L, K, 0, True, 4 * K * L)
         sh.append(("C", t["cycle_tail"]))
